@@ -178,7 +178,7 @@ def gen_basis_case(rng, p=None, cls=None):
     p = p or rng.choice([1, 2, 3, 3, 4, 5, 6, 7])
     n = p + 1 + rng.randint(0, 8)
     cls = cls or rng.choice(['uniform', 'random', 'random', 'random', 'fullmult', 'unclamped', 'unclamped_rep', 'range',
-                             'fine', 'unclamped_endrep', 'endknot', 'unclamped-wide'])
+                             'fine', 'unclamped_endrep', 'endknot', 'unclamped-wide', 'jump'])
     lohi = (0.0, 1.0)
     kcls = cls
     if cls == 'range':
@@ -201,6 +201,17 @@ def gen_basis_case(rng, p=None, cls=None):
             U[n - 2] = a_ + 0.5 * (b_ - a_) if p + 1 <= n - 2 else U[n - 2]
         U = sorted(U)
         extra = [('near-end', b_ - 2 * g), ('near-end', b_ - 1.5 * g), ('near-end', b_ - 0.5 * g)]
+    elif cls == 'jump':
+        # an interior knot of multiplicity degree + 1 (a valid, discontinuous knot vector), parameters on it and one ulp either side
+        import math as _m
+        n = max(n, 2 * p + 2)
+        m_ = n - p - 1
+        v_ = round(rng.uniform(0.3, 0.7), 2)
+        others = sorted(set(round(rng.uniform(0.05, 0.95), 3) for _ in range(max(0, m_ - p - 1))) - {v_})
+        while len(others) < m_ - p - 1:
+            others = sorted(set(others + [round(rng.uniform(0.05, 0.95), 4)]) - {v_})
+        U = [0.0] * (p + 1) + sorted(others + [v_] * (p + 1)) + [1.0] * (p + 1)
+        extra = [('jump', v_), ('jump-ulp', _m.nextafter(v_, 0.0)), ('jump-ulp', _m.nextafter(v_, 1.0))]
     elif cls == 'unclamped-wide':
         # unclamped, with outer knots far outside the domain (the range of the whole vector is much longer than the domain)
         n = max(n, p + 3)
@@ -375,9 +386,15 @@ def check_basis(case, ctx):
                 else:
                     ctx.ok('ders_one')
             # multiplicity
-            m = helpers.find_multiplicity(u, U)
-            ctx.check(m == cnt.get(u, 0), 'multiplicity', 'find_multiplicity(%r) = %r, knot occurs %d times'
-                      % (u, m, cnt.get(u, 0)), what='multiplicity', kv=U)
+            # (documented as equality "within a tolerance": 1e-7, scaled down for knot ranges shorter than 1; knots at 0.5 .. 2 tolerances are
+            # left undecided)
+            tolm = 1e-7 * min(1.0, abs(U[-1] - U[0]))
+            if not any(0.5 * tolm < abs(k - u) < 2 * tolm for k in U):
+                expm = sum(1 for k in U if abs(k - u) <= tolm)
+                m = helpers.find_multiplicity(u, U)
+                ctx.check(m == expm, 'multiplicity', 'find_multiplicity(%r) = %r, %d knots lie within the tolerance' % (u, m, expm), what='multiplicity', kv=U)
+                ctx.check(helpers.find_multiplicity(u, U, tol=0.0) == cnt.get(u, 0), 'multiplicity', 'find_multiplicity(%r, tol=0) != exact count %d'
+                          % (u, cnt.get(u, 0)), what='multiplicity', kv=U)
         # list wrappers equal the single-parameter calls
         sl = helpers.find_spans(p, U, n, us)
         ctx.check(list(sl) == spans_l, 'span/find_spans', 'find_spans %r != per-parameter spans %r' % (sl, spans_l),
